@@ -170,6 +170,9 @@ def run(ctx, res):
                 "(b) scripted message sequences (publications, purges, task sequences, incl. a malformed stream) through the real worker loop; "
                 "non-trivial = >= 2 tasks and >= 6 steps, or >= 4 worker messages; distinct by content")
     sc.run_family(ctx, res, "C02", ctx.n(200, 4000))
+    if ctx.tier == "thorough":
+        sc.run_family(ctx, res, "C02", 0, cases=sc.exhaustive_cases(ctx.sub_rng("exh")))
+        res.extra["exhaustive_small_scope"] = "all jobs with <= 3 tasks (1-2 outputs, <= 2 inputs) x 4 cluster shapes x 3 requested-output sets x 2 delivery modes"
     worker_part(ctx, res)
 
 
